@@ -72,6 +72,10 @@ impl Scope {
     }
     pub(crate) fn add_node(&self, node: NodeRef) {
         assert!(node.created_in().equals(self));
+        #[cfg(cormacrelf_incremental_rs_verif)]
+        if let Some(t) = node.state_opt() {
+            t.verif_registry.borrow_mut().push(node.weak());
+        }
         match self {
             Self::Top => {}
             Self::Bind(bind_weak) => {
